@@ -95,8 +95,11 @@ func unitsFor(prop, tier string) []Unit {
 		}
 	}
 	switch prop {
+	case "C01":
+		us = append(us, Unit{Prop: prop, Tier: tier, Kind: "appx", Index: 0, Name: "appx/limit-reloads (real binary, SIGUSR1)"})
 	case "C16":
 		us = append(us, Unit{Prop: prop, Tier: tier, Kind: "appx", Index: 0, Name: "appx/reload-histories (real binary, SIGUSR1)"})
+		us = append(us, Unit{Prop: prop, Tier: tier, Kind: "appx", Index: 1, Name: "appx/env-reloads (real binary, SIGUSR1)"})
 	case "C17":
 		for i := 0; i < 8; i++ {
 			us = append(us, Unit{Prop: prop, Tier: tier, Kind: "appx", Index: i, Name: fmt.Sprintf("appx/field-edits-%d-of-8 (real binary, SIGUSR1)", i)})
@@ -111,6 +114,7 @@ func unitsFor(prop, tier string) []Unit {
 		us = append(us, Unit{Prop: prop, Tier: tier, Kind: "procx", Index: 0, Bin: "race", Name: "procx/C19/concurrent-writers (12 jobs at once on one file store, race build)"})
 	case "C18":
 		us = append(us, Unit{Prop: prop, Tier: tier, Kind: "procx", Index: 0, Bin: "race", Name: "procx/C18/race-build (same grammar under the race detector)"})
+		us = append(us, Unit{Prop: prop, Tier: tier, Kind: "appx", Index: 1, Name: "appx/env-reloads (real binary, SIGUSR1)"})
 	case "C13":
 		us = append(us, Unit{Prop: prop, Tier: tier, Kind: "procx", Index: 0, Bin: "race", Name: "procx/C13/real-runner (production task runner and exec handler under the race detector)"})
 	}
